@@ -307,6 +307,7 @@ PROPS["C09"]["stages"] = [rt_stage, labchecks.services_stage]
 PROPS["C09"]["assumptions"] = PROPS["C09"]["assumptions"] + ["lab half: for every call of a generated random service the SafeParams extension holds exactly the arguments the C08 model calls safe"]
 
 PROPS["C19"]["stages"] = [rt_stage, labchecks.raw_stage]
+PROPS["C06"]["stages"] = [rt_stage, labchecks.bodies_stage]
 PROPS["C19"]["assumptions"] = PROPS["C19"]["assumptions"] + ["lab half: raw requests (valid / with 1-2 corrupted path, query, header or auth arguments) against the generated endpoints of random services, blocking and async"]
 
 PROPS["C07"]["stages"] = [rt_stage, labchecks.services_stage]
